@@ -45,3 +45,40 @@ package generate
 //@   invariant 1 [stops.written] (forall ((k!s (_ BitVec 8))) (=> (and (bvult k!s #x40) (bvult (reg.rel k!s #x0a) K)) (and (= (select (reg.c mon.regs) k!s) (gen.stopColor (generate.GradientStop.Color (at stops (reg.rel k!s #x0a))))) (= (select (reg.n mon.regs) k!s) (generate.GradientStop.Offset (at stops (reg.rel k!s #x0a)))))))
 //@   invariant 1 [stops.matrix] (and (= (select (reg.n mon.regs) #x04) (select transform (int 0))) (= (select (reg.n mon.regs) #x05) (select transform (int 1))) (= (select (reg.n mon.regs) #x06) (select transform (int 2))) (= (select (reg.n mon.regs) #x07) (select transform (int 3))) (= (select (reg.n mon.regs) #x08) (select transform (int 4))) (= (select (reg.n mon.regs) #x09) (select transform (int 5))))
 //@   invariant 1 [stops.frame] (forall ((k!s (_ BitVec 8))) (=> (and (bvult k!s #x40) (bvuge (reg.rel k!s #x0a) K)) (and (=> (not (= k!s c0)) (= (select (reg.c mon.regs) k!s) (select (reg.c S0) k!s))) (=> (bvult (reg.rel k!s #x0a) (int 58)) (= (select (reg.n mon.regs) k!s) (select (reg.n S0) k!s))))))
+
+// ---- geometry of the derived matrices (C19), real-number reading. gx, gy: gradient-space image of a viewBox point
+// under the matrix handed to SetGradient (arg4); arg1 = shape, arg2 = spread, arg3 = stops.
+
+//@ filelet m0 (select arg4 0)
+//@ filelet m1 (select arg4 1)
+//@ filelet m2 (select arg4 2)
+//@ filelet m3 (select arg4 3)
+//@ filelet m4 (select arg4 4)
+//@ filelet m5 (select arg4 5)
+
+//@ contract (*Generator).SetLinearGradient
+//@   mode math
+//@   modifies tr.ivg.Destination
+//@   requires [nondegenerate] (not (and (= x1 x2) (= y1 y2)))
+//@   at call SetGradient assert [C19.linear.pass] (and (= arg0 g) (= arg1 0) (= arg2 spread) (= arg3 stops))
+//@   at call SetGradient assert [C19.linear.zero] (= (+ (* m0 x1) (* m1 y1) m2) 0.0)
+//@   at call SetGradient assert [C19.linear.one] (= (+ (* m0 x2) (* m1 y2) m2) 1.0)
+//@   at call SetGradient assert [C19.linear.perpendicular] (= (+ (* m0 (- (- y2 y1))) (* m1 (- x2 x1))) 0.0)
+
+//@ contract (*Generator).SetCircularGradient
+//@   mode math
+//@   modifies tr.ivg.Destination
+//@   requires [nondegenerate] (not (and (= rx 0.0) (= ry 0.0)))
+//@   at call SetGradient assert [C19.circular.pass] (and (= arg0 g) (= arg1 1) (= arg2 spread) (= arg3 stops))
+//@   at call SetGradient assert [C19.circular.centre] (and (= (+ (* m0 cx) (* m1 cy) m2) 0.0) (= (+ (* m3 cx) (* m4 cy) m5) 0.0))
+//@   at call SetGradient assert [C19.circular.one] (= (+ (* (+ (* m0 (+ cx rx)) (* m1 (+ cy ry)) m2) (+ (* m0 (+ cx rx)) (* m1 (+ cy ry)) m2)) (* (+ (* m3 (+ cx rx)) (* m4 (+ cy ry)) m5) (+ (* m3 (+ cx rx)) (* m4 (+ cy ry)) m5))) 1.0)
+//@   at call SetGradient assert [C19.circular.isotropic] (and (= m0 m4) (= m1 0.0) (= m3 0.0) (> m0 0.0))
+
+//@ contract (*Generator).SetEllipticalGradient
+//@   mode math
+//@   modifies tr.ivg.Destination
+//@   requires [nondegenerate] (not (= (* rx sy) (* sx ry)))
+//@   at call SetGradient assert [C19.elliptical.pass] (and (= arg0 d) (= arg1 1) (= arg2 spread) (= arg3 stops))
+//@   at call SetGradient assert [C19.elliptical.centre] (and (= (+ (* m0 cx) (* m1 cy) m2) 0.0) (= (+ (* m3 cx) (* m4 cy) m5) 0.0))
+//@   at call SetGradient assert [C19.elliptical.axis-r] (and (= (+ (* m0 (+ cx rx)) (* m1 (+ cy ry)) m2) 1.0) (= (+ (* m3 (+ cx rx)) (* m4 (+ cy ry)) m5) 0.0))
+//@   at call SetGradient assert [C19.elliptical.axis-s] (and (= (+ (* m0 (+ cx sx)) (* m1 (+ cy sy)) m2) 0.0) (= (+ (* m3 (+ cx sx)) (* m4 (+ cy sy)) m5) 1.0))
